@@ -345,11 +345,27 @@ static Token *read_char_literal(char *start, char *quote, Type *ty) {
   else
     c = decode_utf8(&p, p);
 
-  char *end = strchr(p, '\'');
-  if (!end)
-    error_at(p, "unclosed char literal");
+  // A plain constant of one character has the value of a `char`. More
+  // characters are packed into an int, the first one uppermost, as the
+  // other compilers for this platform do.
+  bool is_plain = (start == quote);
+  if (is_plain)
+    c = (*p == '\'') ? (char)c : (c & 0xff);
 
-  Token *tok = new_token(TK_NUM, start, end + 1);
+  while (*p != '\'') {
+    if (*p == '\n' || *p == '\0')
+      error_at(p, "unclosed char literal");
+
+    int c2;
+    if (*p == '\\')
+      c2 = read_escaped_char(&p, p + 1);
+    else
+      c2 = decode_utf8(&p, p);
+    if (is_plain)
+      c = ((unsigned)c << 8) | (c2 & 0xff);
+  }
+
+  Token *tok = new_token(TK_NUM, start, p + 1);
   tok->val = c;
   tok->ty = ty;
   return tok;
@@ -634,7 +650,6 @@ Token *tokenize(File *file) {
     // Character literal
     if (*p == '\'') {
       cur = cur->next = read_char_literal(p, p, ty_int);
-      cur->val = (char)cur->val;
       p += cur->len;
       continue;
     }
